@@ -522,7 +522,8 @@ def native_replay(u, values, tmp):
     cmd = ['clang', '-g', '-O0', '-w', '-fsanitize=address,undefined',
            '-fno-sanitize=null',     # iv_container_of() computes offsets from a null pointer
            '-fno-sanitize-recover=undefined', '-fno-omit-frame-pointer', src, '-o', exe]
-    for w in wrap_list(u):
+    # wrap exactly the stubs that this unit defines (STUB(x) -> __wrap_x)
+    for w in sorted(set(re.findall(r'\b__wrap_(\w+)\s*\(', prog))):
         cmd.append('-Wl,--wrap=' + w)
     cmd.append('-lpthread')
     rc, out, err, dt = sh(cmd, timeout=120)
